@@ -12,7 +12,7 @@ commits = sh("git", "-C", "/repo", "log", "--reverse", "--format=%H %s", f"main.
 have = set(sh("git", "-C", "/repo", "log", "--format=%s", "main").stdout.splitlines())
 for c in commits:
     h, _, subj = c.partition(" ")
-    if subj in have:
+    if subj in have or any(subj.startswith(x) for x in os.environ.get("MERGE_SKIP", "\0").split("|")):
         print("already on main:", h[:7], subj); continue
     r = sh("git", "-C", "/repo", "cherry-pick", h)
     print("cherry-pick", h[:7], subj, "->", "ok" if r.returncode == 0 else "FAILED " + r.stderr[-300:])
